@@ -64,6 +64,10 @@ def check_pair(case, ctx):
     prog = prog_bytes(n, case["a"], case["b"])
     want = R.segwit_encode(hrp, ver, prog)
     st_, got = call(B.encode, hrp, ver, list(prog))
+    st_b, got_b = call(B.encode, hrp=hrp, witver=ver, witprog=prog)      # bytes program, keyword form
+    if (st_, got if st_ == "ok" else None) != (st_b, got_b if st_b == "ok" else None):
+        raise Violation("C11/encode/argument-form", "encode(%r, %d, <%d bytes>) gives %r for a list program and %r for bytes"
+                        % (hrp, ver, n, got, got_b))
     if want is None:
         ctx.count("illegal-or-too-long")
         if st_ == "ok" and got is not None:
